@@ -4,6 +4,8 @@ S=$1; P=$2; shift 2
 cd /repo && git apply /verif/seeded/$S/patch.diff || exit 9
 cd /verif && ./check $P "$@" > /tmp/seedrun_${S}_$P.txt 2>&1; rc=$?
 cd /repo && git checkout -- .
+# the evidence file of this run describes the seeded tree: put the committed one (unchanged tree) back
+cd /verif && git checkout -- evidence/$P.json 2>/dev/null
 echo "$S $P exit=$rc $(grep -c '^VIOLATION' /tmp/seedrun_${S}_$P.txt) violations; $(grep '^VIOLATION' /tmp/seedrun_${S}_$P.txt | head -3 | tr '\n' ' ')"
 grep -A1 '^VIOLATION' /tmp/seedrun_${S}_$P.txt | grep 'failed obligation' | head -4
 grep '^INCONCLUSIVE' /tmp/seedrun_${S}_$P.txt | head -3
